@@ -1,1 +1,23 @@
-fn main() { println!("{:?}", blockwatch::verif_hooks::tags("x <block a=1> y </block>")); }
+mod core;
+mod gen_val;
+mod rng;
+mod tables;
+mod ts;
+
+fn main() -> anyhow::Result<()> {
+    let args: Vec<String> = std::env::args().collect();
+    std::panic::set_hook(Box::new(|_| {}));
+    let a = core::parse_args(&args[2.min(args.len())..]);
+    match args.get(1).map(String::as_str) {
+        Some("tables") => tables::run(&args[2..]),
+        Some("val") => {
+            let kind = a.rest.first().cloned().unwrap_or_else(|| "keep-sorted".into());
+            let rows = core::par_cases(a.n, a.seed, |ctx, seed, i| gen_val::generate(ctx, seed, i, &kind));
+            core::write_out(&a.out, &rows)
+        }
+        _ => {
+            eprintln!("usage: bwh <component> [--seed S] [--n N] [--out DIR] [--tier T] [args]");
+            std::process::exit(2);
+        }
+    }
+}
